@@ -20,6 +20,7 @@ import (
 	"github.com/form3tech-oss/f1/v2/internal/trigger"
 	"github.com/form3tech-oss/f1/v2/internal/trigger/api"
 	"github.com/form3tech-oss/f1/v2/internal/ui"
+	"github.com/form3tech-oss/f1/v2/pkg/f1"
 	"github.com/form3tech-oss/f1/v2/pkg/f1/scenarios"
 )
 
@@ -147,7 +148,27 @@ func h1OneRun(env *Env, c *H1Cfg, st *h1State, runIdx int) {
 
 	g.DoCalledNs, g.DoCalledSeq = env.Sim.Now(), env.Sim.Step()
 	env.Log("do-call", int64(runIdx), 0, c.Mode)
-	if c.Driver == "cli" {
+	if c.Driver == "f1" {
+		// the public entry point: f1.New().Add(...).ExecuteWithArgs(args) (root command, profiling flags,
+		// signal context; no signal is ever delivered inside the simulation)
+		f := f1.New().WithLogger(slog.New(rec.Handler()))
+		f.Add(g.Scenario, rt.scenarioFn)
+		args := append([]string{"run", c.Mode, g.Scenario}, sortedFlagArgs(c.Flags)...)
+		args = append(args, common...)
+		if c.MemProfile {
+			args = append(args, "--memprofile", os.DevNull)
+		}
+		func() {
+			defer func() {
+				if r := recover(); r != nil {
+					g.DoPanic = fmt.Sprint(r) + "\n" + string(debug.Stack())
+				}
+			}()
+			if err := f.ExecuteWithArgs(args); err != nil {
+				hr.CliErr = err.Error()
+			}
+		}()
+	} else if c.Driver == "cli" {
 		cmd := run.Cmd(scens, builders, settings, st.Metrics, out)
 		args := []string{c.Mode}
 		if c.Mode == "file" {
